@@ -306,8 +306,10 @@ def history_cases(draw, q):
     spec = draw(gen.core_spec(core_rings=(1, 2), n_types=(1, 2), rings=(2, 3), ducts=(1, 2), gap_models=("flow", "none", "no_flow"),
                               regimes=("lam", "tra", "tur"), n_steps=(10, 25), lowfi=True, regions=True, max_cells=2,
                               byp_frac=(0.02, 0.3), coolant=draw(st.sampled_from(["const", "sodium"]))
-                              if False else "const", dT=(20.0, 120.0)))
+                              if False else "const", dT=(20.0, 120.0), bc_kinds=("FLOWRATE", "OUTLET_TEMP", "DELTA_TEMP")))
     spec = with_models(draw, spec)
+    if draw(st.booleans()):
+        spec["setup"]["axial_plane_frac"] = [round(draw(gen.fl(0.05, 0.95)), 3) for _ in range(draw(st.integers(1, 3)))]
     spec["_builds"] = draw(st.integers(2, 3))
     spec["_write_output"] = draw(st.booleans())
     return spec
@@ -317,8 +319,10 @@ def history_cases(draw, q):
 def execution_cases(draw, q):
     spec = draw(gen.core_spec(core_rings=(1, 2), n_types=(1, 2), rings=(2, 3), ducts=(1, 2), gap_models=("flow", "none"),
                               regimes=("tra", "tur"), n_steps=(10, 20), lowfi=True, regions=False, max_cells=2,
-                              byp_frac=(0.03, 0.3), dT=(20.0, 100.0)))
+                              byp_frac=(0.03, 0.3), dT=(20.0, 100.0), bc_kinds=("FLOWRATE", "OUTLET_TEMP", "DELTA_TEMP")))
     spec = with_models(draw, spec)
+    if draw(st.booleans()):
+        spec["setup"]["axial_plane_frac"] = [round(draw(gen.fl(0.05, 0.95)), 3) for _ in range(draw(st.integers(1, 3)))]
     ntp = draw(st.integers(1, 3 if q else 4))
     base = spec["power"]["files"][0]
     files = [base]
@@ -329,6 +333,14 @@ def execution_cases(draw, q):
             for key in ("pins", "duct", "cool"):
                 if key in ap:
                     ap[key]["base"] = [[x * sc for x in row] for row in ap[key]["base"]]
+        if draw(st.booleans()):
+            # other axial power-cell boundaries at this time point (same number of cells)
+            for ap in f.values():
+                zf = ap["zb_frac"]
+                if len(zf) > 2:
+                    inner = sorted(round(draw(gen.fl(0.1, 0.9)), 3) for _ in range(len(zf) - 2))
+                    if all(b_ - a_ > 0.02 for a_, b_ in zip([0.0] + inner, inner + [1.0])):
+                        ap["zb_frac"] = [0.0] + inner + [1.0]
         files.append(f)
     spec["power"]["files"] = files
     spec["power"]["total_power"] = None
